@@ -1168,8 +1168,10 @@ struct H {
         return s + extra; // std uses the first N characters only
     }
 
+    // unterminated == false: every call on NUL-terminated sources; == true: only the char const* calls with an explicit n on
+    // exact-size blocks without terminator (run last: if one of them trips ASan the rest of the case is lost)
     template <typename C>
-    void string_ctor_sweep(M const& a, bool long_only)
+    void string_ctor_sweep(M const& a, bool long_only, bool unterminated = false)
     {
         struct CP {
             C z, o;
@@ -1190,6 +1192,7 @@ struct H {
             std::string pl = payload_of(a, L);
             for (CP const& cp : chars) {
                 for (size_t P : {size_t(0), size_t(2)}) {
+                    if (unterminated) { break; }
                     for (int nmode = 0; nmode < 3; ++nmode) {
                         size_t S = nmode == 0 ? (P ? 3 : 0) : 0;
                         for (int form = 0; form < 5; ++form) {
@@ -1212,8 +1215,11 @@ struct H {
                             if (form == 0 && !(dch && nmode == 1)) { continue; }
                             if (form == 1 && !dch) { continue; }
                             if (form == 2 && cp.o != C('1')) { continue; }
-                            ctor_cstr<C>(pl, S ? 1 : 0, S, nmode, cp.z, cp.o, form);
-                            if (nmode == 0) { ctor_cstr<C>(pl, S ? 1 : 0, S, nmode, cp.z, cp.o, form, false); } // exactly n characters, no NUL
+                            if (!unterminated) {
+                                ctor_cstr<C>(pl, S ? 1 : 0, S, nmode, cp.z, cp.o, form);
+                            } else if (nmode == 0) {
+                                ctor_cstr<C>(pl, S ? 1 : 0, S, nmode, cp.z, cp.o, form, false); // exactly n characters, no NUL
+                            }
                         }
                     }
                 }
@@ -1377,6 +1383,8 @@ struct H {
             ar.b  = &b;
             ar.ob = &ob;
             for (int op = B_AND_A; op <= C_XORA_ANDA; ++op) {
+                // chained binary expressions: with every 4th operand on the exhaustively enumerated widths, every operand otherwise
+                if (small && N > 2 && op > B_XOR && (j + k) % 4 != 0) { continue; }
                 from_base();
                 step(op, ar);
             }
@@ -1406,8 +1414,11 @@ struct H {
             }
         }
         // string constructors (valid strings, len <= N)
+        bool const wide_too = !small || k % 8 == 0 || tier == vf::Tier::thorough;
         string_ctor_sweep<char>(a, false);
-        if (!small || k % 8 == 0 || tier == vf::Tier::thorough) { string_ctor_sweep<wchar_t>(a, false); }
+        if (wide_too) { string_ctor_sweep<wchar_t>(a, false); }
+        string_ctor_sweep<char>(a, false, true);
+        if (wide_too) { string_ctor_sweep<wchar_t>(a, false, true); }
     }
     // strings longer than N: std uses the first N characters (kept in a case of their own)
     void long_string_case()
@@ -1419,6 +1430,8 @@ struct H {
         }
         string_ctor_sweep<wchar_t>(value(nv - 1), true);
         string_ctor_sweep<wchar_t>(value(nv / 3), true);
+        string_ctor_sweep<char>(value(nv - 1), true, true);
+        string_ctor_sweep<wchar_t>(value(nv / 3), true, true);
     }
 
     // ---------------------------------------------------------------- random history
